@@ -167,6 +167,29 @@ func (h *held) check(report func(name, was, now string)) {
 	}
 }
 
+// heldFn: the same for results that are not bytes (slices of values, of paths, of leaf nodes): the result is
+// rendered when returned and rendered again later
+type heldFnItem struct {
+	name   string
+	was    string
+	render func() string
+}
+type heldFns struct{ items []heldFnItem }
+
+func (h *heldFns) add(name string, render func() string) {
+	if len(h.items) < 64 {
+		h.items = append(h.items, heldFnItem{name, render(), render})
+	}
+}
+func (h *heldFns) check(report func(name, was, now string)) {
+	for _, it := range h.items {
+		if now := it.render(); now != it.was {
+			report(it.name, it.was, now)
+			return
+		}
+	}
+}
+
 // family registry
 type replayFn func(line []byte, a *Acc)
 type recordFn func(seed int64, n int, w *bufio.Writer, a *Acc)
